@@ -98,6 +98,8 @@ FLAG_MEANING = {
     "CALLS": "allocate() must call the allocator exactly once",
     "BADFREE": "deallocate must free exactly the pointers allocate returned, once",
     "LEAK": "every block must be released when the vectors are destroyed",
+    "LIFETIME": "every element must be copy-constructed exactly once per slot (allocator construct = placement copy construction) and destroyed exactly once",
+    "SIZEOF": "element size assumed by the model differs from the harness build",
     "OPERAND-TYPE": "ALIGN_PTR must not depend on the operand types (int / size_t / pointer)",
 }
 
@@ -126,6 +128,18 @@ def oracle(case, line, exact):
                     "align 0 = an entry point that guarantees no more than 8)" % (n * s, a))
         if line == "ptr=ok" or (line == "bad_alloc" and n * s > (1 << 24)): return None
         return "n <= max_size(): expected an aligned pointer (or bad_alloc for a huge request)"
+    if k == "A":
+        want = "addr=1 eq=1 ne=0 rebind=1 max=1 hint=ok hint_len=length_error stack=1"
+        return None if line == want else "aligned_allocator members (address, ==, !=, converting constructor, rebind, allocate with hint) / STACK_BUFFER: expected " + want
+    if k == "T":
+        s, n, a, ans = int(t[1]), int(t[2]), int(t[3]), t[4]
+        b = (n * s) % M64
+        if exact:
+            want = ("null" if ans == "none" else "ptr=" + ans) + " req=%d,%d" % (b, a)
+            return None if line == want else ("alignedMalloc<T>(%d, %d) with sizeof(T)=%d must forward nElements*sizeof(T)=%d bytes AND the alignment %d "
+                                             "to alignedMalloc (request printed as bytes,align)" % (n, a, s, b, a))
+        if line == "ptr=ok" or (line == "null" and (b == 0 or b > (1 << 24))): return None
+        return "alignedMalloc<T>(%d, %d): expected a pointer that is a multiple of %d" % (n, a, a)
     if k == "I":
         p, a = int(t[1]), int(t[2])
         if a == 0: return None
@@ -168,7 +182,7 @@ def oracle(case, line, exact):
         got = sorted(m.group(1).split())
         want = sorted("%d:%d:%s" % (p, s, "-:-" if s == 0 else "%d:%d" % (pat(jj, 0), pat(jj, s - 1))) for jj, (p, s) in live.items())
         return None if got == want else "live blocks / their first and last bytes differ from what was allocated and written"
-    if k == "V":
+    if k in ("V", "W"):
         ops = t[3:]
         if not ops: return None if line == "" else "malformed"
         outs = line.split(" ; ")
@@ -204,7 +218,10 @@ def abstract(case, line):
     if k == "G":
         w = line.split()[0]
         return "alloc" if (w.startswith("ptr=") and w != "ptr=MIS") or w == "bad_alloc" else w
-    if k == "V":
+    if k == "T":
+        w = line.split()[0]
+        return "alloc" if (w.startswith("ptr=") and w != "ptr=MIS") or w == "null" else line
+    if k in ("V", "W"):
         line = re.sub(r"\|live=\[[^\]]*\]", "", line)
         return ADDR.sub(lambda m: "%s=%s," % (m.group(1), "null" if m.group(2) == "0" else ("al" if int(m.group(2)) % 64 == 0 else "MIS")), line)
     if k == "H":
@@ -342,11 +359,38 @@ def gen_vec(r, s, maxlen, maxn, fail):
     return "V %d %d %s" % (s, fail, " ".join(ops))
 
 
+W_SIZEOF = {"s": 32, "v": 24, "i": 16}     # std::string / std::vector<int> / instrumented element (x86-64 libstdc++)
+
+
+def gen_w(r, tag, maxlen, maxn, fail):
+    """a vector history on a NON-trivially-copyable element type (the model runs it with sizeof(T) only)"""
+    c = gen_vec(r, W_SIZEOF[tag], maxlen, maxn, fail).split()
+    return "W %s %s" % (tag, " ".join(c[2:]))
+
+
+def gen_typed(r, ctx):
+    """the typed overload alignedMalloc<T>(n, align): element sizes 1,4,8,12,72 x alignments 1..4096 x n incl. a wrapping product"""
+    cases = []
+    for s in (1, 4, 8, 12, 72):
+        wrapn = M64 // s + 1
+        for a in POW2:
+            ns = [0, 1, 2, 3, 17, r.randint(4, 5000), r.randint(5000, 200000), wrapn, wrapn + r.randint(1, 1000), 1 << 63]
+            for n in sorted(set(min(x, M64 - 1) for x in ns)):
+                for ans in ("none", str(a * r.randint(1, 1 << 30))):
+                    cases.append("T %d %d %d %s" % (s, n, a, ans))
+    return cases
+
+
 # ------------------------------------------------------------------ Tie A: regenerate gen/GenAlloc.v
 GEN_NEEDED = ["aligned_allocator64_max_size__", "aligned_allocator64_max_size___2", "aligned_allocator64_max_size___3",
               "aligned_allocator64_max_size___4", "aligned_allocator64_allocate__ul_body", "aligned_allocator64_allocate__ul_2_body",
               "aligned_allocator64_allocate__ul_3_body", "aligned_allocator64_allocate__ul_4_body", "c14inst_align_ptr_ul__ul_ul",
-              "c14inst_align_ptr_i__ul_i", "memory_isAligned__p_i_expr", "memory_isAligned__p_i_default_alignment"]
+              "c14inst_align_ptr_i__ul_i", "memory_isAligned__p_i_expr", "memory_isAligned__p_i_default_alignment",
+              "memory_alignedMalloc__ul_ul_request", "memory_alignedMalloc__ul_ul_2_request",
+              "aligned_allocator64_construct__p_uc_shape", "aligned_allocator64_construct__p_s_shape", "aligned_allocator64_construct__p_f_shape",
+              "aligned_allocator64_construct__p_d_shape", "containers_aligned_allocator64_construct__p_Obj_shape",
+              "aligned_allocator64_destroy__p_shape", "aligned_allocator64_destroy__p_2_shape", "aligned_allocator64_destroy__p_3_shape",
+              "aligned_allocator64_destroy__p_4_shape", "containers_aligned_allocator64_destroy__p_shape"]
 GEN_DEPENDENTS = ["gen/GenAlloc", "ProofsGen", "PropertiesGen"]
 
 
@@ -382,8 +426,43 @@ def regenerate(ctx):
             ctx.broken.append("generated definition %s is missing (the source left the translator's subset)" % n)
 
 
+# ------------------------------------------------------------------ closed declaration list
+def closed_list(ctx):
+    """every function / overload / member / alias / macro declared in the four anchored files (clang AST, with and without
+    the TBB define) must be covered by a case kind or theorem (coverage.COVER) or excluded with a reason (coverage.EXCLUDE)"""
+    import importlib, sys as _sys
+    here = os.path.dirname(os.path.abspath(__file__))
+    if here not in _sys.path:
+        _sys.path.insert(0, here)
+    import declscan, coverage
+    importlib.reload(coverage)
+    tu = os.path.join(ctx.verif, "tools", "c14gen", "scan.cpp")
+    inc = ctx.include_dir()
+    decls = {}
+    for i, extra in enumerate(([], ["-DRKCOMMON_TASKING_TBB"])):
+        try:
+            decls.update(declscan.declarations(ctx.repo, inc, tu, os.path.join(ctx.build, "scan%d.json" % i), extra))
+        except Exception as ex:
+            ctx.broken.append("declaration scan failed (%s): %s" % (" ".join(extra) or "default", str(ex)[-300:]))
+            return
+    known = set(coverage.COVER) | set(coverage.EXCLUDE)
+    unknown = sorted(set(decls) - known)
+    stale = sorted(known - set(decls))
+    ctx.cov["declared"] = len(decls)
+    ctx.cov["declared_covered"] = len(set(decls) & set(coverage.COVER))
+    ctx.cov["declared_excluded"] = {k: coverage.EXCLUDE[k] for k in sorted(set(decls) & set(coverage.EXCLUDE))}
+    ctx.cov["declared_uncovered"] = unknown
+    ctx.log("closed list: %d declarations, %d covered, %d excluded, %d unknown, %d disappeared"
+            % (len(decls), ctx.cov["declared_covered"], len(ctx.cov["declared_excluded"]), len(unknown), len(stale)))
+    for k in unknown:
+        ctx.broken.append("declaration not covered by any case kind or theorem (line %s): %s" % (decls[k], k))
+    for k in stale:
+        ctx.broken.append("a covered declaration disappeared or changed its signature: %s" % k)
+
+
 # ------------------------------------------------------------------ the check
 def run(ctx):
+    closed_list(ctx)
     regenerate(ctx)
     thm = ctx.coq_check(("Properties.v", "PropertiesGen.v"))
     gen_broken = sorted(n for n, ok in thm.items() if n.startswith("gen_") and not ok)
@@ -435,8 +514,16 @@ def run(ctx):
     # long histories with larger sizes: real back ends only, judged by the twin and the list oracle
     for i in range(ctx.pick(400, 4000)):
         vec_big.append(gen_vec(r, SIZES_V[i % 5], 120, 3000, -1))
-    modelled = corpus + arith + heap + vec_small + vec_fail
-    real_ok = lambda c: not (c[0] in "HV" and c.split()[2 if c[0] == "V" else 1] != "-1")
+    typed = gen_typed(ctx.rng("typed"), ctx)
+    rw = ctx.rng("nontrivial-elements")
+    wvec, wbig = [], []
+    for i in range(ctx.pick(360, 2400)):
+        wvec.append(gen_w(rw, "svi"[i % 3], 30, 40, -1 if i % 4 else rw.randint(0, 8)))
+    for i in range(ctx.pick(240, 2400)):
+        wbig.append(gen_w(rw, "svi"[i % 3], 100, 400, -1))
+    vec_big += wbig
+    modelled = corpus + ["A"] + arith + typed + heap + vec_small + vec_fail + wvec
+    real_ok = lambda c: not (c[0] in "HVW" and c.split()[2 if c[0] in "VW" else 1] != "-1")
     ctx.log("cases: corpus %d arith %d heap %d vec %d+%d (+%d real only)" % (len(corpus), len(arith), len(heap), len(vec_small), len(vec_fail), len(vec_big)))
 
     mlines, mcr = run_cases(ctx, model, modelled)
@@ -463,7 +550,7 @@ def run(ctx):
     hist, kinds = {}, {}
     for c, ml in zip(modelled, mlines):
         kinds[c[0]] = kinds.get(c[0], 0) + 1
-        if c[0] in "HV":
+        if c[0] in "HVW":
             for tok in c.split()[2:]:
                 key = c[0] + ":" + tok.split(":")[0]
                 hist[key] = hist.get(key, 0) + 1
@@ -471,7 +558,7 @@ def run(ctx):
             w = ml.split()[0].split("=")[0]
             hist["G:" + w] = hist.get("G:" + w, 0) + 1
             if int(c.split()[3]) > 1: ctx.nontriv(c)
-        elif c[0] == "V":
+        elif c[0] in "VW":
             for w in ("length_error", "bad_alloc"):
                 if w in ml: hist["V:outcome:" + w] = hist.get("V:outcome:" + w, 0) + 1
             if len(set(re.findall(r"\b[ab]=(\d+),", ml))) >= 3: ctx.nontriv(c)     # at least two reallocations
@@ -479,20 +566,27 @@ def run(ctx):
             if "f:" in c: ctx.nontriv(c)
         elif c[0] in "IP":
             if int(c.split()[1]) > 1: ctx.nontriv(c)
+        elif c[0] == "T":
+            if int(c.split()[2]) > 1 and int(c.split()[3]) > 1: ctx.nontriv(c)
     for c in vec_big:
         ctx.nontriv(c)
     ctx.cov["op_histogram"] = hist
     ctx.cov["case_kinds"] = kinds
     ctx.cov["case_mix"] = {"corpus": len(corpus), "arith_grid": len(arith), "malloc_free_histories": len(heap), "of_which_many_small_live_blocks_per_size_align_cell": len(small_live),
                            "vector_histories_modelled": len(vec_small), "vector_histories_with_injected_bad_alloc": len(vec_fail),
-                           "vector_histories_real_back_ends_only": len(vec_big)}
+                           "vector_histories_real_back_ends_only": len(vec_big),
+                           "typed_alignedMalloc_cases": len(typed), "vector_histories_nontrivial_elements_modelled": len(wvec),
+                           "vector_histories_nontrivial_elements_real_only": len(wbig)}
     ctx.rule = ("M/G/I/P/S: boundary grid for max_size, the length_error guard (n around max_size, around 2^64/sizeof(T) and its multiples, "
                 "2^63, 2^64-1; 13 element sizes x 4 alignments; back-end answer scripted), isAligned, ALIGN_PTR and the assert; "
                 "H: the grid sizes {0,1,a-1,a,a+1,4095,4096,4097,2^20+3} x alignments 1..4096 in seeded order interleaved with frees, full-extent "
                 "patterns verified before every free, plus for every size 0..16 x alignment 1..64 a history with 64 (thorough: 256) blocks of that cell "
                 "alive at once, pointer % align checked for each; V: random push_back/resize/reserve/shrink_to_fit/assign/clear/swap histories on two "
                 "AlignedVectors of element size 1,4,12,64,72 with a std::vector twin, some with one injected back-end failure, some with "
-                "requests around vector::max_size(); every case on 3 builds (spy / _mm_malloc+ASan / TBB).  non-trivial = G,I,P: operand > 1; "
+                "requests around vector::max_size(); W: the same histories on AlignedVector<std::string> (short and long), <std::vector<int>> and a "
+                "lifetime-instrumented element (live-address registry, self pointer, constructed == destroyed at the end); T: the typed overload "
+                "alignedMalloc<T>(n, align) for sizeof(T) 1,4,8,12,72 x alignments 1..4096 (request bytes,align on the spy; pointer % align and full-extent "
+                "pattern on the real back ends); every case on 3 builds (spy / _mm_malloc+ASan / TBB).  non-trivial = G,I,P: operand > 1; "
                 "H: contains a free; V: the data pointer took >= 3 distinct values (or the long real-only histories)")
     for c in (arith[40], heap[0], vec_small[0], vec_fail[0]):
         ctx.sample({"case": c[:400], "model": mlines[modelled.index(c)][:400]})
@@ -506,8 +600,8 @@ def run(ctx):
             reported += 1
             case = cases[idx]
             small = case
-            if case[0] in "HV":
-                head = case.split()[:3 if case[0] == "V" else 2]
+            if case[0] in "HVW":
+                head = case.split()[:3 if case[0] in "VW" else 2]
                 hang = isinstance(rc, str)
                 def dies(ops, head=head, exe=exe, hang=hang):
                     rc2, out, err2, h2 = run_guarded(ctx, exe, " ".join(head + ops) + "\n", 5 if hang else 60)
@@ -535,8 +629,8 @@ def run(ctx):
             seen_kind.add((c[0], verdict is None))
             if verdict is not None:
                 small, sl, sv = c, il, verdict
-                if c[0] in "HV":
-                    head = c.split()[:3 if c[0] == "V" else 2]
+                if c[0] in "HVW":
+                    head = c.split()[:3 if c[0] in "VW" else 2]
                     def fails(ops, head=head, exe=exe, exact=exact):
                         cc = " ".join(head + ops)
                         rc2, out, err2, h2 = run_guarded(ctx, exe, cc + "\n", 30)
